@@ -36,7 +36,7 @@ fn meta() -> Meta {
     Meta {
         id: "C07",
         level: "model_checking",
-        rule: "E1: every history up to the depth bound over {W(20) (rotates), W(5), R, T(+1s), Restart(append), Restart(no append)} for naming x Cleanup{KeepLogFiles(k), KeepCompressedFiles(m), KeepLogAndCompressedFiles(k,m)}, k,m in 0..2 x suffix {log, none, a.b, txt} x cleanup in the logging thread / in the async writer thread; E2: every schedule with <= p preemptions of 3-4 rotations against the background cleanup thread, scheduling points at each listing/remove/compress step; states = distinct (configuration, directory shape) reached, transitions = operations executed + scheduling decisions; non-trivial = at least one file was removed or compressed; plus buffered configurations (judged at restarts and after shutdown); plus eight configurations under TZ=Europe/Berlin starting inside the local hour that occurs twice at the end of daylight saving; plus two E2 cases in which shutdown() races with a thread that holds the un-modelled state lock (the cleanup is complete when it returns)",
+        rule: "E1: every history up to the depth bound over {W(20) (rotates), W(5), R, T(+1s), Restart(append), Restart(no append)} for naming x Cleanup{KeepLogFiles(k), KeepCompressedFiles(m), KeepLogAndCompressedFiles(k,m)}, k,m in 0..2 x suffix {log, none, a.b, txt} x cleanup in the logging thread / in the async writer thread; E2: every schedule with <= p preemptions of 3-4 rotations against the background cleanup thread, scheduling points at each listing/remove/compress step; states = distinct (configuration, directory shape) reached, transitions = operations executed + scheduling decisions; non-trivial = at least one file was removed or compressed; plus buffered configurations (judged at restarts and after shutdown); plus eight configurations under TZ=Europe/Berlin starting inside the local hour that occurs twice at the end of daylight saving; plus two E2 cases in which shutdown() races with a thread that holds the un-modelled state lock (the cleanup is complete when it returns); buffered E2 cases with a compressing background cleanup (no existing file is empty); a compressed file that exists before and after an operation keeps its content",
         assumptions: vec![
             "size limit 15; lines of 20 and 5 bytes; virtual clock".into(),
             "count limits: rotated plain files <= k (direct namings: plain files incl. the current one <= max(k,1)), compressed <= m".into(),
